@@ -83,7 +83,7 @@ def run_one(sid, tier):
 
 def main():
     tier = "quick"
-    args = [a for a in sys.argv[1:] if a != "--keep"]
+    args = [a for a in sys.argv[1:] if a not in ("--keep", "--no-demo")]
     if "--tier" in args:
         i = args.index("--tier")
         tier = args[i + 1]
